@@ -196,6 +196,56 @@ theorem mem_splitLocal_misses {st : Store} : ∀ {ks : List Cid} {c : Cid},
       have := ih h
       exact ⟨by simp [this.1], this.2⟩
 
+theorem mem_splitLocalR_hits {st : Store} {rd : Nat → Bool} : ∀ {ks : List Cid} {i : Nat} {b : Blk},
+    b ∈ (splitLocalR st rd i ks).1 → b.1 ∈ ks ∧ st.get b.1.mh = some b.2 := by
+  intro ks
+  induction ks with
+  | nil => intro i b h; simp [splitLocalR] at h
+  | cons c r ih =>
+    intro i b h
+    unfold splitLocalR at h
+    by_cases hr : rd i = true
+    · cases hg : st.get c.mh with
+      | none =>
+        simp [hr, hg] at h
+        have := ih h
+        exact ⟨by simp [this.1], this.2⟩
+      | some d =>
+        simp [hr, hg] at h
+        rcases h with h | h
+        · subst h; exact ⟨by simp, hg⟩
+        · have := ih h
+          exact ⟨by simp [this.1], this.2⟩
+    · simp [hr] at h
+      have := ih h
+      exact ⟨by simp [this.1], this.2⟩
+
+theorem mem_splitLocalR_misses {st : Store} {rd : Nat → Bool} : ∀ {ks : List Cid} {i : Nat} {c : Cid},
+    c ∈ (splitLocalR st rd i ks).2 → c ∈ ks ∧ ((∀ j, rd j = true) → st.get c.mh = none) := by
+  intro ks
+  induction ks with
+  | nil => intro i b h; simp [splitLocalR] at h
+  | cons c r ih =>
+    intro i b h
+    unfold splitLocalR at h
+    by_cases hr : rd i = true
+    · cases hg : st.get c.mh with
+      | none =>
+        simp [hr, hg] at h
+        rcases h with h | h
+        · subst h; exact ⟨by simp, fun _ => hg⟩
+        · have := ih h
+          exact ⟨by simp [this.1], this.2⟩
+      | some d =>
+        simp [hr, hg] at h
+        have := ih h
+        exact ⟨by simp [this.1], this.2⟩
+    · simp [hr] at h
+      rcases h with h | h
+      · subst h; exact ⟨by simp, fun hall => absurd (hall i) hr⟩
+      · have := ih h
+        exact ⟨by simp [this.1], this.2⟩
+
 /-! ### nothing the validator rejects crosses the boundary of the block service -/
 
 theorem firstErr_none {al : Allowlist} : ∀ {bs : List Blk}, firstErr al bs = none → ∀ b ∈ bs, valid al b.1 = true := by
@@ -305,6 +355,13 @@ theorem getBlock_pf (cfg : Cfg) (st : Store) (c : Cid) (ans : Option Blk) (nOk :
     (h : pf ≠ some 0) : getBlock cfg st c ans nOk pf = getBlock cfg st c ans nOk none := by
   simp [getBlock, pf_ne h]
 
+/-- a failed read ends GetBlock at once: error, no request, no write, nothing handed out -/
+theorem getBlock_rd_false (cfg : Cfg) (st : Store) (c : Cid) (ans : Option Blk) (nOk : Bool) (pf : Option Nat) :
+    (getBlock cfg st c ans nOk pf false).1 = st ∧ (getBlock cfg st c ans nOk pf false).2.2 = [] ∧
+    ∀ b, (getBlock cfg st c ans nOk pf false).2.1 ≠ .blk b := by
+  unfold getBlock
+  cases hv : validate cfg.al c.code c.len <;> simp
+
 theorem addBlock_ok (cfg : Cfg) (st : Store) (o : Blk) (pf : Option Nat) :
     (∀ ev ∈ (addBlock cfg st o pf).2.2, evOk cfg.al ev = true) ∧
     (storeOk cfg.al st → storeOk cfg.al (addBlock cfg st o pf).1) := by
@@ -347,9 +404,14 @@ theorem addBlocks_ok (cfg : Cfg) (st : Store) (bs : List Blk) (pf : Option Nat) 
   · rw [addBlocks_pf cfg st bs h]; exact addBlocks_ok_none cfg st bs
 
 theorem getBlock_ok (cfg : Cfg) (hfix : cfg.fixed = true) (st : Store) (c : Cid) (ans : Option Blk) (nOk : Bool)
-    (pf : Option Nat) :
-    (∀ ev ∈ (getBlock cfg st c ans nOk pf).2.2, evOk cfg.al ev = true) ∧
-    (storeOk cfg.al st → storeOk cfg.al (getBlock cfg st c ans nOk pf).1) := by
+    (pf : Option Nat) (rdOk : Bool) :
+    (∀ ev ∈ (getBlock cfg st c ans nOk pf rdOk).2.2, evOk cfg.al ev = true) ∧
+    (storeOk cfg.al st → storeOk cfg.al (getBlock cfg st c ans nOk pf rdOk).1) := by
+  cases rdOk with
+  | false =>
+    have := getBlock_rd_false cfg st c ans nOk pf
+    rw [this.1, this.2.1]; simp
+  | true =>
   by_cases h : pf = some 0
   · subst h
     unfold getBlock
@@ -402,19 +464,19 @@ theorem fetchLoop_ok (al : Allowlist) (misses : List Cid) (hm : ∀ c ∈ misses
       exact ih st nf pf
 
 theorem getBlocks_ok (cfg : Cfg) (hfix : cfg.fixed = true) (st : Store) (ks : List Cid) (ans : Option (List Blk))
-    (nf pf : Option Nat) :
-    (∀ ev ∈ (getBlocks cfg st ks ans nf pf).2, evOk cfg.al ev = true) ∧
-    (storeOk cfg.al st → storeOk cfg.al (getBlocks cfg st ks ans nf pf).1) := by
+    (nf pf : Option Nat) (rd : Nat → Bool) :
+    (∀ ev ∈ (getBlocks cfg st ks ans nf pf rd).2, evOk cfg.al ev = true) ∧
+    (storeOk cfg.al st → storeOk cfg.al (getBlocks cfg st ks ans nf pf rd).1) := by
   unfold getBlocks
-  have hh : ∀ b ∈ (splitLocal st (filterKeys cfg.al ks)).1, valid cfg.al b.1 = true :=
-    fun b hb => (mem_filterKeys (mem_splitLocal_hits hb).1).2
-  have hm : ∀ c ∈ (splitLocal st (filterKeys cfg.al ks)).2, valid cfg.al c = true :=
-    fun c hc => (mem_filterKeys (mem_splitLocal_misses hc).1).2
-  have hemit : ∀ ev ∈ (splitLocal st (filterKeys cfg.al ks)).1.map Ev.emit, evOk cfg.al ev = true := by
+  have hh : ∀ b ∈ (splitLocalR st rd 0 (filterKeys cfg.al ks)).1, valid cfg.al b.1 = true :=
+    fun b hb => (mem_filterKeys (mem_splitLocalR_hits hb).1).2
+  have hm : ∀ c ∈ (splitLocalR st rd 0 (filterKeys cfg.al ks)).2, valid cfg.al c = true :=
+    fun c hc => (mem_filterKeys (mem_splitLocalR_misses hc).1).2
+  have hemit : ∀ ev ∈ (splitLocalR st rd 0 (filterKeys cfg.al ks)).1.map Ev.emit, evOk cfg.al ev = true := by
     intro ev hev
     obtain ⟨b, hb, rfl⟩ := List.mem_map.1 hev
     simpa [evOk] using hh b hb
-  have hreq : evOk cfg.al (.reqMany (splitLocal st (filterKeys cfg.al ks)).2) = true := by
+  have hreq : evOk cfg.al (.reqMany (splitLocalR st rd 0 (filterKeys cfg.al ks)).2) = true := by
     simp only [evOk, List.all_eq_true]; exact hm
   simp only []
   split
@@ -444,8 +506,8 @@ theorem stepOp_ok (cfg : Cfg) (hfix : cfg.fixed = true) (st : Store) (op : Op) :
   cases op with
   | add b pf => exact addBlock_ok cfg st b pf
   | addMany bs pf => exact addBlocks_ok cfg st bs pf
-  | get c ans nOk pf => exact getBlock_ok cfg hfix st c ans nOk pf
-  | getMany ks ans nf pf => exact getBlocks_ok cfg hfix st ks ans nf pf
+  | get c ans nOk pf rdOk => exact getBlock_ok cfg hfix st c ans nOk pf rdOk
+  | getMany ks ans nf pf rd => exact getBlocks_ok cfg hfix st ks ans nf pf rd
   | del c => exact ⟨by simp [stepOp], fun hs => storeOk_del hs⟩
 
 theorem run_ok (cfg : Cfg) (hfix : cfg.fixed = true) : ∀ (ops : List Op) (st : Store),
